@@ -240,11 +240,15 @@ def tp_form(p):
 
 def tp_sod(p):
     """second of day as an exact Fraction of the stored binary values"""
-    s = F(p._hour_of_day) * 3600
-    if p._minute_of_hour is not None:
-        s += F(p._minute_of_hour) * 60
-    if p._second_of_minute is not None:
-        s += F(p._second_of_minute)
+    h, m, sec = p._hour_of_day, p._minute_of_hour, p._second_of_minute
+    if type(h) is int and (m is None or type(m) is int) and \
+            (sec is None or type(sec) is int):
+        return F(h * 3600 + (m or 0) * 60 + (sec or 0))   # fast path
+    s = F(h) * 3600
+    if m is not None:
+        s += F(m) * 60
+    if sec is not None:
+        s += F(sec)
     return s
 
 
@@ -255,8 +259,11 @@ def tp_offset_minutes(p):
 
 def tp_instant(mode, p):
     """seconds since 0001-01-01T00:00Z of the mode's calendar (Fraction)"""
-    return (tp_rd(mode, p) * SECONDS_IN_DAY + tp_sod(p)
-            - tp_offset_minutes(p) * 60)
+    sod = tp_sod(p)
+    base = tp_rd(mode, p) * SECONDS_IN_DAY - tp_offset_minutes(p) * 60
+    if sod.denominator == 1:
+        return F(base + sod.numerator)
+    return base + sod
 
 
 def tp_is_integral(p):
